@@ -297,6 +297,10 @@ def gen_workload(rseed: int, tier: str) -> Dict[str, Any]:
         for d in docs:
             if d["name"].startswith("tmpl") and "!" not in d["name"]:
                 fam.setdefault(d["name"].split("~")[0], []).append(d["id"])
+        # the nested-parenthesis family: valid documents and documents cut off inside a nested parenthesis
+        nest = [d["id"] for d in docs if d["name"] in ("tmpl-nested-5", "nested-5-cut", "nested-8-cut", "nested-40")]
+        if len(nest) > 1:
+            fam["nested"] = nest
         fams = [v for v in fam.values() if len(v) > 1]
         if fams:
             pool = list(g.choice(fams))
